@@ -1,6 +1,6 @@
 (* C04 — each operator application is emitted once, in the innermost enclosing scope.  Property theorems only. *)
 From Coq Require Import List String NArith Arith Bool.
-From Spox Require Import Base IR Show Build Sem Plan Validate BuildFacts SemFacts DfsFacts ScopeFacts EmitFacts ReachFacts DiscoverFacts CoverageFacts LcaFacts PlacementFacts.
+From Spox Require Import Base IR Show Build Sem Plan Validate BuildFacts SemFacts DfsFacts ScopeFacts EmitFacts ReachFacts DiscoverFacts CoverageFacts LcaFacts PlacementFacts DefUseFacts.
 Import ListNotations.
 
 (* The source nodes of all emitted nodes (all nested graphs) are duplicate-free and are exactly the non-argument nodes on which
@@ -178,3 +178,18 @@ Theorem C04_placement_is_the_lowest_common_ancestor_by_construction :
     (exists E, In E (d_post d) /\ In u (trav p E)).
 Proof. exact placement_is_lowest_common_ancestor. Qed.
 Print Assumptions C04_placement_is_the_lowest_common_ancestor_by_construction.
+
+(* Defined before use ACROSS scopes, by construction (no validator): for every application u placed in graph s and every
+   non-argument application w it takes an operand from, w is placed in a graph s_w that is s or an ancestor of s in the final scope
+   tree; if s_w = s, w precedes u in the GraphProto of s ([own_of_def] is the node list of that GraphProto,
+   C04_graph_holds_exactly_its_own_nodes); otherwise the chain from s up to s_w ends in a graph h whose carrier node o is placed in
+   s_w, and w precedes o there - the value is defined in the enclosing graph before the node whose body uses it. *)
+Theorem C04_operands_are_defined_before_use_in_an_enclosing_graph_by_construction :
+  forall p (rank : nref -> nat), (forall u v, In v (full_adj p u) -> rank v < rank u) -> (forall u, rank u < fuel_of p) ->
+  forall main d, discover (fuel_of p) p dstate0 main = inl d ->
+  forall s u w, In u (own_of_def p d main s) -> In w (deps p u) -> is_arg p w = false ->
+  exists s_w, In w (own_of_def p d main s_w) /\ Anc p d s_w s /\
+    ((s_w = s /\ before_in (own_of_def p d main s) w u) \/
+     (exists h o kk, Anc p d h s /\ In (kk, h) (subs_of p o) /\ In o (own_of_def p d main s_w) /\ before_in (own_of_def p d main s_w) w o)).
+Proof. exact operands_are_defined_before_use_in_an_enclosing_graph. Qed.
+Print Assumptions C04_operands_are_defined_before_use_in_an_enclosing_graph_by_construction.
